@@ -25,6 +25,7 @@ SIMPLE = {
     'things:Other': ('x', ['y', 'child']),
     'things:ident': ('x', []),
     'things:annotated_fn': ('x', ['y', 'child']),
+    'things:mutdef': ('c', ['a', 'b']),
 }
 
 _FACTORIES = {'list': list, 'int': int, 'make_list': things.make_list, None: None}
@@ -128,6 +129,13 @@ def dag(draw, *, max_nodes=12, leaf_profile='plain', kinds=None, p_alias=0.55,
       if tags and draw(st.floats(0, 1)) < 0.5:
         key = draw(st.sampled_from(['a', 'b', 'k'] + list(range(len(pos)))))
         node['tags'] = [[key, draw(st.sampled_from(['TagA', 'TagB', 'TagC', 'TagX']))]]
+    elif kind == 'Bempty':
+      # a Buildable with tags but no argument values
+      node = {'k': 'B', 'bt': draw(st.sampled_from(list(bts))), 'fn': {'kind': 'sym', 'name': 'things:f2'},
+              'pos': [], 'kw': {}, 'edits': []}
+      if tags:
+        node['tags'] = [[draw(st.sampled_from(['x', 'y', 'child'])), draw(st.sampled_from(['TagA', 'TagB', 'TagX']))]
+                        for _ in range(draw(st.integers(1, 2)))]
     elif kind == 'Bann':
       pos = [ref() for _ in range(draw(st.integers(0, 3)))]
       kw = {}
